@@ -73,7 +73,7 @@ Proof.
     2:{ rewrite fold_err in H; [discriminate | intros; reflexivity]. }
     assert (K : frame a0 x x2 /\ acct_ok x2 a0).
     { destruct (ahas (p_index x) a0) eqn:Eh.
-      - eapply recheck_ok; eauto.
+      - destruct (recheck_ok prioE prioB a0 None x x2 Ex (Hwf a0)) as [R1 [R2 _]]. split; assumption.
       - inversion Ex; subst x2. split; [apply frame_refl|]. unfold acct_ok. unfold ahas in Eh.
         specialize (Hwf a0). unfold wf_acct in Hwf. destruct (aget (p_index x) a0); [discriminate | exact Hwf]. }
     destruct K as [F A0]. eapply IH; [exact H | |].
